@@ -232,8 +232,13 @@ impl Expression for Op {
 
             Or => {
                 if lhs_def.is_null() || lhs_value == Some(Value::Boolean(false)) {
-                    // lhs is always "false"
-                    self.rhs.apply_type_info(&mut state)
+                    // lhs is always "false", but it is still evaluated: keep its fallibility
+                    let rhs_def = self.rhs.apply_type_info(&mut state);
+                    if lhs_def.is_fallible() {
+                        rhs_def.fallible()
+                    } else {
+                        rhs_def
+                    }
                 } else if !(lhs_def.contains_null() || lhs_def.contains_boolean())
                     || lhs_value == Some(Value::Boolean(true))
                 {
@@ -255,8 +260,8 @@ impl Expression for Op {
 
             And => {
                 if lhs_def.is_null() || lhs_value == Some(Value::Boolean(false)) {
-                    // lhs is always "false"
-                    TypeDef::boolean()
+                    // lhs is always "false", but it is still evaluated: keep its fallibility
+                    TypeDef::boolean().maybe_fallible(lhs_def.is_fallible())
                 } else if lhs_value == Some(Value::Boolean(true)) {
                     // lhs is always "true"
                     // keep the fallibility of RHS, but change it to a boolean;
@@ -312,11 +317,14 @@ impl Expression for Op {
             Div => {
                 let td = TypeDef::float();
 
-                // Division is infallible if the rhs is a literal normal float or integer.
+                // Division by a literal normal float or integer cannot fail by itself; the
+                // lhs is still evaluated, so the operation is as fallible as the lhs.
                 match self.rhs.resolve_constant(&state) {
                     Some(value) if lhs_def.is_float() || lhs_def.is_integer() => match value {
-                        Value::Float(v) if v.is_normal() => td.infallible(),
-                        Value::Integer(v) if v != 0 => td.infallible(),
+                        Value::Float(v) if v.is_normal() => {
+                            td.maybe_fallible(lhs_def.is_fallible())
+                        }
+                        Value::Integer(v) if v != 0 => td.maybe_fallible(lhs_def.is_fallible()),
                         _ => td.fallible(),
                     },
                     _ => td.fallible(),
